@@ -477,4 +477,25 @@ theorem view_seen {t : Thread} {ver : Nat} (hv : View t ver) :
   · exact ⟨0, by simp [hs]⟩
   · exact ⟨x, hs⟩
 
+/-! ### the plain mutex: balanced programs are flat -/
+
+theorem balanced_flat (p : List Op) (h : balanced p = true) : flat p = true := by
+  fun_induction balanced p with
+  | case1 => rfl
+  | case2 p ih => simpa [flat, flatFrom] using ih h
+  | case3 => cases h
+
+/-- a balanced program only contains `lock` and `unlock` -/
+theorem balanced_mutex_only (p : List Op) (h : balanced p = true) : ∀ o ∈ p, o = .lock ∨ o = .unlock := by
+  fun_induction balanced p with
+  | case1 => simp
+  | case2 p ih =>
+    intro o ho
+    simp only [List.mem_cons] at ho
+    rcases ho with rfl | rfl | ho
+    · exact Or.inl rfl
+    · exact Or.inr rfl
+    · exact ih h o ho
+  | case3 => cases h
+
 end CJ.RW
